@@ -8,6 +8,13 @@ NOTE = ("Trusted: go/ssa translation (x/tools v0.29.0), the engine's SSA semanti
         "Claim is bounded: every input inside the per-harness bounds recorded in the evidence; nothing outside them. ")
 
 claimed = {
+ "C03": dict(text="Bounded model checking of the scalar range gate of ECDSA verification (acceptance implies r, s in [1, n-1]; DER signatures with R and S of 1..33 bytes; the curve computation replaced by a stub with arbitrary verdict and x coordinate) "
+                  "and of signature serialisation (Signature.Bytes is strict minimal DER and parses back for every r, s in [1, 2^256)).",
+             ref="6/C03", note=NOTE + "Thin coverage: public-key validity (on-curve, coordinates < p), BIP340 and taproot-tweak gates, and the signers' nonce derivation are outside this revision. "),
+ "C14": dict(text="Bounded model checking (Int mode, HMAC-SHA512 / SHA-256 / RIPEMD-160 as injective ghost functions, public key as an uninterpreted function of the private key) of BIP32: CKDpriv for every key, chain code and index "
+                  "(HMAC input layout hardened / normal, child = (IL + k) mod n zero-padded, chain code, depth, fingerprint, index), CKDpub (same HMAC input, tweak passed to the point addition, hardened indexes refused), "
+                  "extended-key serialisation layout / checksum / parse-back, WIF export/import round trip.",
+             ref="6/C14", note=NOTE + "Outside: make_wallet, BIP39, scrypt, address listing; Base58 is bypassed here (C15). BIP32's 'IL >= n or child == 0 is invalid' rule is assumed away (probability < 2^-127). "),
  "C08": dict(text="Bounded model checking (Int mode: mathematical integers with explicit wrap-around, quotient variables, products abstracted to shared bounded variables) of the 5x52 field arithmetic against the ring Z/p: "
                   "Mul and Sqr for all operands of magnitude <= 8, Normalize for all limbs < 2^60 (canonical output, value preserved mod p), SetAdd / MulInt / Negate within their magnitude contracts, SetB32/GetB32 round trip and value.",
              ref="6/C08", note=NOTE + "Most of these obligations are discharged by the engine's canonical linear forms and interval arithmetic before a query is needed (reported per assertion in the evidence as folded); the group law, scalar code and tables (L1-L3) are not yet covered. "),
@@ -45,12 +52,10 @@ claimed = {
 }
 
 na = {
- "C03": "not yet built in this revision (planned: DESIGN.md 6/C03)",
  "C06": "histories over disk-backed state, float work sums and goroutine workers cannot be encoded as a bounded symbolic pre-state by this engine (DESIGN.md 6/C06)",
  "C07": "quantifies over OS file-system states between syscalls (crash points); nothing there is code the encoder can execute (DESIGN.md 6/C07)",
  "C11": "quantifies over thread interleavings; the engine executes one sequential schedule (DESIGN.md 6/C11)",
  "C12": "invariant over histories of five mutually referencing global pointer maps; needs an unbounded symbolic heap (DESIGN.md 6/C12)",
- "C14": "not yet built in this revision (planned: DESIGN.md 6/C14)",
  "C16": "real-file I/O with a background writer; snappy resolves to assembly on amd64 (no SSA) (DESIGN.md 6/C16)",
  "C17": "maps of maps driven by callbacks from parallel UTXO workers over block histories (DESIGN.md 6/C17)",
  "C19": "file operations and crash points of the embedded key-value store (DESIGN.md 6/C19)",
